@@ -93,6 +93,19 @@ BASE['D'] = """base deck D
 imp:n 1 1 0
 imp:p 1 0 0
 """
+BASE['E'] = """base deck E
+1 1 -2.7 -1 imp:n=1 imp:p=1
+2 like 1 but trcl=(5 0 0) imp:n=0 imp:p=0
+3 like 1 but *trcl=(-5 0 0 30 60 90 120 30 90 90 90 0) mat=2 rho=-7.8 imp:n=2
+4 0 1 #2 #3 -2 imp:n,p=1
+5 0 2 imp:n=0 imp:p=0
+
+1 rcc 0 0 -1 0 0 2 1.5
+2 so 40
+
+m1 13027 1
+m2 26056 1
+"""
 
 NUM = r'[-+]?(?:\d+\.?\d*|\.\d+)(?:[eEdD][-+]?\d+|[-+]\d+)?'
 RE_NUM = re.compile('^' + NUM + '$')
@@ -470,12 +483,12 @@ def scenarios(tier):
     rewrites.cache_clear()
     out = [Scn('deck' + b, builder(b, 2, numpairs=not q), 2, 2,
                'rewrite sequences of length <= 2, all rewrite kinds' + (' (pairs of two number respellings: thorough tier)' if q else ''))
-           for b in 'ABCD']
+           for b in 'ABCDE']
     if tier != 'quick':
         # depth 3 over the structural rewrites (case, blanks, continuation, comments, message block, shorthand);
         # number respellings stay at depth 2
         out += [Scn('deck%s-d3' % b, builder(b, 3, STRUCTURAL), 3, 3,
-                    'rewrite sequences of length <= 3, structural rewrite kinds') for b in 'DCBA']
+                    'rewrite sequences of length <= 3, structural rewrite kinds') for b in 'EDCBA']
     return out
 
 
